@@ -9,6 +9,8 @@ import (
 	"encoding/binary"
 	"encoding/json"
 	"flag"
+	"io"
+	"log"
 	"fmt"
 	"os"
 	"path/filepath"
@@ -136,6 +138,7 @@ func Main(m *testing.M, prop string, init func()) {
 	}
 	// Bound memory a little: a runaway case should die, not take the machine down.
 	debug.SetMemoryLimit(6 << 30)
+	log.SetOutput(io.Discard) // the library logs warnings through the global logger
 	_ = flag.Set("rapid.nofailfile", "true")
 	os.RemoveAll("testdata/rapid")
 	if init != nil {
